@@ -96,7 +96,7 @@ BAD_VALUES = ["zz9", " 12x ", "truee", "1 2", ""]
 # --------------------------------------------------------------------------
 # which node binds which element (real parser, original document only)
 # --------------------------------------------------------------------------
-def label_elements(uni: B.Universe, clazz: str, tree):
+def label_elements(uni: B.Universe, clazz: str, tree, parent_ns=None):
     """pre-order list of labels, one per element of `tree`:
     ("element", class name) | ("wrapper", parent class) | ("primitive", var name, [type names], list?, tokens?, init?)
     | ("standard",) | ("wildcard",) | ("skip",) | ("union",) ; None when the parse does not get that far."""
@@ -128,7 +128,10 @@ def label_elements(uni: B.Universe, clazz: str, tree):
             else:
                 labels.append(("union",))
 
-    p = Rec(context=XmlContext(models_package=uni.modname), config=ParserConfig(fail_on_unknown_properties=False), handler=EventsHandler)
+    ctx = XmlContext(models_package=uni.modname)
+    if parent_ns is not None:
+        ctx.build(uni.classes[clazz], parent_ns=parent_ns)  # the metadata a UnionNode replays the subtree with
+    p = Rec(context=ctx, config=ParserConfig(fail_on_unknown_properties=False), handler=EventsHandler)
     with warnings.catch_warnings():
         warnings.simplefilter("ignore")
         try:
@@ -296,7 +299,7 @@ def real_decode(uni: B.Universe, clazz: str, data, config: dict, via="dict"):
 # ---- dict.bindkeys: the real bind_dataclass loop with the value binder stubbed out
 def export_dvars(meta):
     return [
-        {"name": v.name, "local_name": v.local_name, "wrapper": v.wrapper, "is_list": bool(v.list_element or v.tokens), "init": bool(v.init)}
+        {"name": v.name, "local_name": v.local_name, "wrapper": v.wrapper, "is_list": bool(v.list_element or v.tokens), "list_element": bool(v.list_element), "init": bool(v.init)}
         for v in meta.get_all_vars()
     ]
 
@@ -304,6 +307,8 @@ def export_dvars(meta):
 def shape_of(value):
     from xsdata.utils import collections
 
+    if value is None:
+        return "null"
     if collections.is_array(value):
         return "array"
     if isinstance(value, dict):
@@ -314,6 +319,8 @@ def shape_of(value):
 def shape_value(shape, key):
     """a JSON value of the given shape whose leaves name the key it sits under"""
     tag = "K:" + key
+    if shape == "null":
+        return None
     if shape == "scalar":
         return tag
     if shape == "array":
@@ -769,3 +776,147 @@ def real_metastate(uni: B.Universe, clazz: str, warm, calls):
     after = metas()
     changed = sorted({k[0] for k in before if after.get(k) != before[k]})
     return {"ok": {"results": results, "changed": changed}}
+
+
+# --------------------------------------------------------------------------
+# XML documents with fields that are unions of dataclasses (UnionNode)
+# --------------------------------------------------------------------------
+def union_desc(rng):
+    """Root mixes plain fields with union-of-dataclass fields (single, list, inside a child
+    class); no class declares a wildcard or an Attributes field, so a name in a fresh namespace
+    is unknown wherever an element class binds"""
+    # no namespaces here: since the context caches by (class, parent_ns) a UnionNode replays its
+    # candidates with the metadata built for parent_ns=None, so unions under a namespaced parent
+    # do not even read back their own serialisation (reported; not a C10 matter)
+    ns = None
+    label = {"name": "Label", "fields": [_f("lang", _opt("str"), "Attribute"), {"name": "value", "type": _opt("str"), "metadata": {"type": "Text"}, "default": {"value": None}}]}
+    circle = {"name": "Circle", "fields": [_f("radius", _opt("int"), "Attribute"), _f("label", _opt({"cls": "Label"})), _f("note", _opt("str"))]}
+    square = {"name": "Square", "fields": [_f("side", _opt("int"), "Attribute"), _f("label", _opt({"cls": "Label"})),
+                                           _f("tags", {"list": "str"}, default={"factory": "list"})]}
+    tri = {"name": "Tri", "fields": [_f("a", _opt("int")), _f("b", _opt("bool"), "Attribute"), _f("inner", _opt({"cls": "Label"}))]}
+    u2 = {"union": [{"cls": "Circle"}, {"cls": "Square"}]}
+    u3 = {"union": [{"cls": "Tri"}, {"cls": "Circle"}, {"cls": "Square"}]}
+    mid = {"name": "Mid", "fields": [_f("m1", _opt("int")), _f("part", _opt(u2)), _f("m2", _opt("str"), "Attribute")]}
+    pool = [
+        _f("title", _opt("str"), "Attribute"),
+        _f("n", _opt("int")),
+        _f("shape", _opt(u2)),
+        _f("shapes", {"list": u3}, default={"factory": "list"}),
+        _f("mid", _opt({"cls": "Mid"})),
+        _f("kid", _opt({"cls": "Label"})),
+        _f("flag", _opt("bool")),
+    ]
+    rng.shuffle(pool)
+    keep = [f for f in pool if rng.random() < 0.8]
+    if not any(f["name"] in ("shape", "shapes", "mid") for f in keep):
+        keep.insert(rng.randint(0, len(keep)), next(f for f in pool if f["name"] == "shape"))
+    root = {"name": "Root", "fields": keep}
+    if ns:
+        root["meta"] = {"namespace": ns}
+    return {"classes": [label, circle, square, tri, mid, root]}
+
+
+def union_instance(rng, uni: B.Universe):
+    C = uni.classes
+
+    def label():
+        return C["Label"](lang=rng.choice(["en", None]), value=rng.choice(["x", "some text", None]))
+
+    def circle():
+        return C["Circle"](radius=rng.choice([3, 10]), label=rng.choice([label, lambda: None])(), note=rng.choice(["n", None]))
+
+    def square():
+        return C["Square"](side=rng.choice([2, 7]), label=rng.choice([label, lambda: None])(), tags=[rng.choice(["t1", "t2"]) for _ in range(rng.randint(0, 2))])
+
+    def tri():
+        return C["Tri"](a=rng.choice([1, 4]), b=rng.choice([True, False, None]), inner=rng.choice([label, lambda: None])())
+
+    def mid():
+        return C["Mid"](m1=rng.choice([5, None]), part=rng.choice([circle, square])(), m2=rng.choice(["z", None]))
+
+    makers = {
+        "title": lambda: rng.choice(["t", "a b"]), "n": lambda: rng.choice([0, 42]), "shape": lambda: rng.choice([circle, square])(),
+        "shapes": lambda: [rng.choice([circle, square, tri])() for _ in range(rng.randint(1, 3))], "mid": mid, "kid": label,
+        "flag": lambda: rng.random() < 0.5,
+    }
+    kw = {}
+    for f in desc_fields(uni.desc, "Root"):
+        if rng.random() < 0.9 or f["name"] in ("shape", "shapes", "mid"):
+            kw[f["name"]] = makers[f["name"]]()
+    return C["Root"](**kw)
+
+
+def union_occurrences(uni: B.Universe, obj):
+    """class names of the values of union-typed fields, in document (= field) order"""
+    out = []
+    cname = type(obj).__name__
+    for f in desc_fields(uni.desc, cname):
+        v = getattr(obj, f["name"], None)
+        is_union = isinstance(_strip_type(f["type"]), dict) and "union" in _strip_type(f["type"])
+        for x in v if isinstance(v, (list, tuple)) else [v]:
+            if x is None or not is_dataclass(x):
+                continue
+            if is_union:
+                out.append(type(x).__name__)  # union candidates hold no union fields themselves
+            else:
+                out += union_occurrences(uni, x)
+    return out
+
+
+def resolve_union_labels(uni: B.Universe, clazz: str, tree, union_classes):
+    """label_elements, with every subtree bound by a UnionNode labelled the way the class
+    that the document was written from binds it; returns (labels, paths inside unions)"""
+    from xsdata.utils.namespaces import target_uri
+
+    labels = label_elements(uni, clazz, tree)
+    todo = list(union_classes)
+    inside = set()
+    for path, node in G.tree_paths(tree):
+        path = tuple(path)
+        if labels.get(path) == ("union",) and path not in inside:
+            if not todo:
+                break
+            c = todo.pop(0)
+            sub = label_elements(uni, c, node, parent_ns=target_uri(node["q"]) or "")
+            for sp, lab in sub.items():
+                labels[path + tuple(sp)] = lab
+                inside.add(path + tuple(sp))
+    return labels, inside
+
+
+def real_unioncfg(config, doc="plain"):
+    """flags of the ParserConfig of every parser UnionNode.bind creates for its candidates while
+    a small document with a union field is parsed, and the caller's flags afterwards"""
+    from typing import Union
+
+    from xsdata.formats.dataclass.context import XmlContext
+    from xsdata.formats.dataclass.parsers import XmlParser
+    from xsdata.formats.dataclass.parsers.config import ParserConfig
+    from xsdata.formats.dataclass.parsers.nodes import union as U
+
+    A = make_dataclass("C10UA", [("x", Optional[int], field(default=None, metadata={"type": "Attribute"}))])
+    Bc = make_dataclass("C10UB", [("y", Optional[int], field(default=None, metadata={"type": "Attribute"}))])
+    R = make_dataclass("C10UR", [("u", Optional[Union[A, Bc]], field(default=None, metadata={"type": "Element"}))])
+    seen = []
+
+    class Rec(U.NodeParser):
+        def parse(self, source, clazz=None, ns_map=None):
+            seen.append([getattr(self.config, k) for k in FLAGS])
+            return super().parse(source, clazz, ns_map)
+
+    dflt = ParserConfig()
+    cfg = ParserConfig(**{k: config.get(k, getattr(dflt, k)) for k in FLAGS})
+    text = {"plain": '<C10UR><u x="1"/></C10UR>', "unknown-attr": '<C10UR><u x="1" zz="2"/></C10UR>', "bad-value": '<C10UR><u x="1x"/></C10UR>'}[doc]
+    orig = U.NodeParser
+    U.NodeParser = Rec
+    try:
+        with warnings.catch_warnings():
+            warnings.simplefilter("ignore")
+            try:
+                XmlParser(context=XmlContext(), config=cfg).from_string(text, R)
+            except Exception:  # noqa: BLE001, S110
+                pass
+    finally:
+        U.NodeParser = orig
+    uniq = [list(x) for x in dict.fromkeys(tuple(x) for x in seen)]
+    return {"ok": {"replay": uniq, "after": [getattr(cfg, k) for k in FLAGS]}}
